@@ -3,6 +3,7 @@
 import json, glob, os, re
 rows=[]
 for d in sorted(glob.glob('/verif/seeded/*')):
+    if os.path.basename(d).startswith('benign-'): continue
     try: m=json.load(open(os.path.join(d,'meta.json')))
     except Exception: continue
     name=os.path.basename(d)
@@ -26,3 +27,21 @@ b=s.index('<!-- SEEDED-TABLE-END -->')
 s=s[:a]+"\n"+table+"\n"+s[b:]
 open(p,'w').write(s)
 print(len(rows),'rows')
+
+# benign changes
+brows=[]
+for d in sorted(glob.glob('/verif/seeded/benign-*')):
+    try: m=json.load(open(os.path.join(d,'meta.json')))
+    except Exception: continue
+    alarms=[k for k,v in (m.get('checks_run') or {}).items() if isinstance(v,dict) and v.get('violation')]
+    summ=(m.get('summary') or '').replace('|','/').replace('\n',' ')
+    if len(summ)>200: summ=summ[:197]+'...'
+    brows.append(f"| {os.path.basename(d)} | {summ} | {len(m.get('checks_run') or {})} | {', '.join(alarms) or 'none'} | {m.get('history','')} |")
+btable="| change | what it does | checks run | alarms | note |\n|---|---|---|---|---|\n"+"\n".join(brows)
+s2=open(p_design:='/verif/DESIGN.md').read()
+if '<!-- BENIGN-TABLE-BEGIN -->' in s2:
+    a=s2.index('<!-- BENIGN-TABLE-BEGIN -->')+len('<!-- BENIGN-TABLE-BEGIN -->')
+    b=s2.index('<!-- BENIGN-TABLE-END -->')
+    s2=s2[:a]+"\n"+btable+"\n"+s2[b:]
+    open(p_design,'w').write(s2)
+print(len(brows),'benign rows')
